@@ -525,6 +525,9 @@ def alphabet(m):
     add("imul", "imul:negative", True, r=rA.id, x=-1.0)
     add("imul", "imul:positive", r=rO.id, x=0.5)
     add("imul", "imul:negative", r=rX.id, x=-2.0)
+    # scaling by zero has no inverse scaling: before the repair of Reaction.__imul__ the undo `__imul__(1.0 / 0)` made the operation
+    # raise ZeroDivisionError after the stoichiometry had been zeroed, and nothing put it back on exit
+    add("imul", "imul:zero", True, r=rA.id, x=0.0)
     add("iadd", "iadd:model-reaction", True, r=rA.id, other={"ref": rB.id})
     add("iadd", "iadd:fresh-reaction", True, r=rA.id,
         other={"new": {"id": "tmp", "mets": [[mA.id, -1.0, "new"], ["new3_c", 1.0, "new"]], "rule": "gX or g1"}})
